@@ -17,8 +17,9 @@ import z3
 
 from .sorts import World, CheckerError, parse_source, dataclass_info, REPO
 
+EAGER_FEASIBILITY = bool(os.environ.get('VERIF_EAGER_FEAS'))
 MAX_INLINE_DEPTH = 40
-MAX_PATHS = 4000
+MAX_PATHS = 40000
 
 
 class Z:
@@ -168,6 +169,15 @@ class Infeasible(Exception):
     pass
 
 
+class _NeedFork(Exception):
+    pass
+
+
+class PathDone(Exception):
+    """the path ends here by a proof rule (e.g. an arbitrary loop iteration whose obligations are recorded)"""
+    pass
+
+
 EXC_PARENTS = {'ValueError': 'Exception', 'RuntimeError': 'Exception', 'AssertionError': 'Exception', 'KeyError': 'LookupError',
                'IndexError': 'LookupError', 'LookupError': 'Exception', 'AttributeError': 'Exception', 'TypeError': 'Exception',
                'Exception': 'BaseException', 'StopIteration': 'Exception', 'ZeroDivisionError': 'ArithmeticError',
@@ -193,13 +203,20 @@ class ExcInstance:
 
 
 class PathCtx:
-    def __init__(self, decisions, timeout_ms=3000):
+    abstract = staticmethod(lambda e: e)      # set by explore(): opaque view of the recursive spec functions
+
+    def __init__(self, decisions, timeout_ms=2000):
         self.decisions = list(decisions)
         self.pos = 0
-        self.solver = z3.Solver()
-        self.solver.set('timeout', timeout_ms)
+        self.timeout_ms = timeout_ms
         self.pc = []
+        self.lits = {}          # sexpr of an atom -> bool, for the cheap syntactic feasibility test
+        self.eqs = {}           # id of a term -> id of the literal it is known to equal
+        self.keep = []          # keeps the recorded terms alive (ids are only unique among live terms)
+        self.partners = []      # pairs of terms known to have the same constructor
         self.pending = []
+        self.nforks = 0
+        self.stop_at = None
         self.obligations = []   # (kind, node, goal z3, pc snapshot, extra)
         self.notes = []
         self.fresh = 0
@@ -210,7 +227,113 @@ class PathCtx:
                 raise Infeasible()
             return
         self.pc.append(c)
-        self.solver.add(c)
+        self._record(c, True)
+
+    def _record(self, c, val, simp=True):
+        if simp:
+            c = z3.simplify(c)
+        if z3.is_not(c):
+            return self._record(c.arg(0), not val, False)
+        if z3.is_and(c) and val:
+            for a in c.children():
+                self._record(a, True, False)
+            return
+        if z3.is_or(c) and not val:
+            for a in c.children():
+                self._record(a, False, False)
+            return
+        self.lits[c.get_id()] = val
+        self.keep.append(c)
+        if val and z3.is_eq(c):
+            a, b = c.arg(0), c.arg(1)
+            if z3.is_app(a) and z3.is_app(b) and a.decl().name() == 'strip' and b.decl().name() == 'strip':
+                # strip(u) == strip(v) implies u and v have the same constructor (one unfolding of strip)
+                self.partners.append((a.arg(0), b.arg(0)))
+        if val and z3.is_eq(c):
+            a, b = c.arg(0), c.arg(1)
+            if z3.is_string_value(a) or z3.is_int_value(a):
+                a, b = b, a
+            if (z3.is_string_value(b) or z3.is_int_value(b)) and not (z3.is_string_value(a) or z3.is_int_value(a)):
+                self.eqs[a.get_id()] = b.get_id()
+
+    def known(self, c):
+        """three-valued evaluation of c over the literals fixed by the path condition: True / False / None"""
+        return self._ev(z3.simplify(c))
+
+    def _ev(self, c):
+        if z3.is_true(c):
+            return True
+        if z3.is_false(c):
+            return False
+        if z3.is_not(c):
+            v = self._ev(c.arg(0))
+            return None if v is None else not v
+        if z3.is_and(c):
+            vs = [self._ev(a) for a in c.children()]
+            if any(v is False for v in vs):
+                return False
+            return True if all(v is True for v in vs) else None
+        if z3.is_or(c):
+            vs = [self._ev(a) for a in c.children()]
+            if any(v is True for v in vs):
+                return True
+            return False if all(v is False for v in vs) else None
+        v = self.lits.get(c.get_id())
+        if v is None:
+            v = self._sibling(c)
+        if v is None and z3.is_eq(c):
+            v = self._eq_known(c)
+        return v
+
+    def _eq_known(self, c):
+        """t == literal when t is already known to equal another literal"""
+        a, b = c.arg(0), c.arg(1)
+        if z3.is_string_value(a) or z3.is_int_value(a):
+            a, b = b, a
+        if not (z3.is_string_value(b) or z3.is_int_value(b)):
+            return None
+        if z3.is_string_value(a) or z3.is_int_value(a):
+            return a.eq(b)
+        k = self.eqs.get(a.get_id())
+        if k is not None:
+            return k == b.get_id()
+        return None
+
+    def _sibling(self, c):
+        """is(C, t) from what is known about the other constructors of t's datatype"""
+        if not (z3.is_app(c) and c.num_args() == 1 and c.decl().kind() == z3.Z3_OP_DT_IS):
+            return None
+        t = c.arg(0)
+        srt = t.sort()
+        me = c.decl().params()[0].name() if c.decl().params() else None
+        others = []
+        for i in range(srt.num_constructors()):
+            r = srt.recognizer(i)(t)
+            if r.eq(c):
+                continue
+            others.append(self.lits.get(r.get_id()))
+        if any(o is True for o in others):
+            return False
+        if others and all(o is False for o in others):
+            return True
+        for u, v in self.partners:
+            other = v if u.eq(t) else (u if v.eq(t) else None)
+            if other is not None:
+                k = self.lits.get(c.decl()(other).get_id())
+                if k is None:
+                    for i in range(srt.num_constructors()):
+                        r = srt.recognizer(i)(other)
+                        if not r.decl().eq(c.decl()) and self.lits.get(r.get_id()) is True:
+                            k = False
+                if k is not None:
+                    return k
+        return None
+
+    def is_recognizer(self, c):
+        c = z3.simplify(c)
+        while z3.is_not(c):
+            c = c.arg(0)
+        return z3.is_app(c) and c.num_args() == 1 and c.decl().kind() == z3.Z3_OP_DT_IS
 
 
 def is_native(v):
@@ -250,6 +373,7 @@ class Interp:
             m.tree = tree
             saved = self.ctx
             self.ctx = PathCtx([])        # module level code is concrete
+            self.ctx.abstract = self.w.abstract
             try:
                 self.exec_block(tree.body, m.env, m, qual='')
             finally:
@@ -304,38 +428,55 @@ class Interp:
             return True
         if z3.is_false(cond):
             return False
+        if getattr(self, 'nofork', 0):
+            raise _NeedFork()
         ctx = self.ctx
+        # decisions are ints: bit 0 = the branch taken, bit 1 = it was a genuine two-way fork
         if ctx.pos < len(ctx.decisions):
-            d = ctx.decisions[ctx.pos]
+            v = ctx.decisions[ctx.pos]
+            d = bool(v & 1)
+            if v & 2:
+                ctx.nforks += 1
         else:
             can_t = self._feasible(cond)
             can_f = self._feasible(z3.Not(cond))
             if can_t and can_f:
+                ctx.nforks += 1
+                if ctx.stop_at is not None and ctx.nforks > ctx.stop_at:
+                    raise _PrefixStop()
                 d = True
-                ctx.pending.append(ctx.decisions[:ctx.pos] + [False])
+                ctx.pending.append(ctx.decisions[:ctx.pos] + [2])
+                ctx.decisions.append(3)
             elif can_t:
                 d = True
+                ctx.decisions.append(1)
             elif can_f:
                 d = False
+                ctx.decisions.append(0)
             else:
                 raise Infeasible()
-            ctx.decisions.append(d)
         ctx.pos += 1
         ctx.assume(cond if d else z3.Not(cond))
         return d
 
     def _feasible(self, c):
-        s = self.ctx.solver
-        s.push()
-        s.add(c)
-        r = s.check()
-        s.pop()
-        return r != z3.unsat
+        k = self.ctx.known(c)
+        if k is not None:
+            return k
+        if self.ctx.is_recognizer(c) or not EAGER_FEASIBILITY:
+            # not decided syntactically: keep the path (over-approximation, sound: an infeasible path only yields
+            # obligations of the form `false ==> ...`); the solver prunes only in eager mode
+            return True
+        from .engine import solve
+        ab = self.ctx.abstract
+        verdict, _, _, _ = solve(z3.Not(ab(c)), [ab(x) for x in self.ctx.pc], timeout_ms=self.ctx.timeout_ms, fallback=False)
+        return verdict != 'discharged'
 
-    def oblige(self, kind, goal, node=None, extra=None):
+    def oblige(self, kind, goal, node=None, extra=None, pc=None):
         if isinstance(goal, bool):
             goal = z3.BoolVal(goal)
-        self.ctx.obligations.append(dict(kind=kind, line=getattr(node, 'lineno', 0), goal=goal, pc=list(self.ctx.pc), extra=extra))
+        self.ctx.obligations.append(dict(kind=kind, line=getattr(node, 'lineno', 0), goal=goal,
+                                         pc=list(self.ctx.pc) if pc is None else list(pc), extra=extra))
 
     def fresh(self, name, sort):
         self.ctx.fresh += 1
@@ -353,6 +494,31 @@ class Interp:
         if z3.is_false(e):
             return False
         return Z(e)
+
+    def opt(self, val):
+        """Optional[str] value: None / str when the term is decided, else kept as a term of sort OptStr
+        (compared and tested without splitting the path; split only where a str is needed)"""
+        val = z3.simplify(val)
+        O = self.w.OptStr
+        if self.ctx is not None:
+            k = self.ctx.known(O.is_NoneS(val))
+            if k is True:
+                return None
+            if k is False:
+                return self.wrap(O.s(val))
+        if z3.is_app(val) and val.decl().eq(O.NoneS.decl()):
+            return None
+        if z3.is_app(val) and val.decl().eq(O.SomeS):
+            return self.wrap(val.arg(0))
+        return Z(val)
+
+    def as_str(self, v, node):
+        """a value used where a str is required: an Optional[str] term is split here"""
+        if isinstance(v, Z) and self.sort_name(v) == 'OptStr':
+            if self.branch(self.w.OptStr.is_NoneS(v.e), node):
+                return None
+            return self.wrap(self.w.OptStr.s(v.e))
+        return v
 
     def ex(self, v):
         """z3 expression of a scalar value"""
@@ -758,6 +924,10 @@ class Interp:
         return self.eval(e.orelse, env, module)
 
     def ev_BoolOp(self, e, env, module):
+        if not any(isinstance(n, (ast.NamedExpr, ast.Await)) or isinstance(n, ast.Call) and not _pure_call(n) for n in ast.walk(e)):
+            merged = self._merge_bool(e, env, module)
+            if merged is not None:
+                return merged
         v = None
         for sub in e.values:
             v = self.eval(sub, env, module)
@@ -770,6 +940,28 @@ class Interp:
             # the last operand was decided by truth(): its value on this path is known
             return t
         return v
+
+    def _merge_bool(self, e, env, module):
+        """and/or over call-free operands: if every operand evaluates to a bool without forking, build one
+        z3 term instead of splitting the path (operands without calls have no side effects)"""
+        self.nofork = getattr(self, 'nofork', 0) + 1
+        try:
+            vals = []
+            for sub in e.values:
+                v = self.eval(sub, env, module)
+                if isinstance(v, bool):
+                    vals.append(z3.BoolVal(v))
+                elif isinstance(v, Z) and self.sort_name(v) == 'Bool':
+                    vals.append(v.e)
+                else:
+                    return None
+            return self.wrap(z3.And(*vals) if isinstance(e.op, ast.And) else z3.Or(*vals))
+        except _NeedFork:
+            return None
+        except PyRaise:
+            return None
+        finally:
+            self.nofork -= 1
 
     def ev_UnaryOp(self, e, env, module):
         v = self.eval(e.operand, env, module)
@@ -786,6 +978,7 @@ class Interp:
         return self.binop(e.op, self.eval(e.left, env, module), self.eval(e.right, env, module), e)
 
     def binop(self, op, a, b, node):
+        a, b = self.as_str(a, node), self.as_str(b, node)
         if isinstance(a, Z) and self.sort_name(a) in ('Cat', 'Feat') or isinstance(a, Obj):
             dunder = {ast.Div: '__truediv__', ast.BitOr: '__or__', ast.BitXor: '__xor__', ast.Add: '__add__', ast.BitAnd: '__and__'}.get(type(op))
             if dunder is None:
@@ -831,6 +1024,8 @@ class Interp:
 
     def ev_Compare(self, e, env, module):
         left = self.eval(e.left, env, module)
+        if len(e.ops) == 1 and getattr(self, 'nofork', 0):
+            return self.compare(e.ops[0], left, self.eval(e.comparators[0], env, module), e)
         for op, rn in zip(e.ops, e.comparators):
             right = self.eval(rn, env, module)
             r = self.compare(op, left, right, e)
@@ -918,13 +1113,24 @@ class Interp:
 
     def py_in(self, item, cont, node):
         if isinstance(cont, (tuple, list)):
+            terms = []
             for x in cont:
                 if is_native(item) and is_native(x):
                     if item == x:
                         return True
                     continue
-                if self.truth(self.py_eq(item, x, node), node):
+                r = self.py_eq(item, x, node)
+                if isinstance(r, bool):
+                    if r:
+                        return True
+                    continue
+                if isinstance(r, Z) and self.sort_name(r) == 'Bool':
+                    terms.append(r.e)      # == on these operands is pure: a disjunction instead of a path split
+                    continue
+                if self.truth(r, node):
                     return True
+            if terms:
+                return self.wrap(z3.Or(*terms))
             return False
         if isinstance(cont, str):
             if isinstance(item, str):
@@ -1097,10 +1303,7 @@ class Interp:
                     return tuple(self.wrap(w.acc(chosen, zf)(o.e)) for zf, _ in parts)
                 val = w.acc(chosen, parts[0][0])(o.e)
                 if ann == 'Optional[str]':
-                    # Optional[str] is split at the access: None on one path, a str on the other
-                    if self.branch(w.OptStr.is_NoneS(val), node):
-                        return None
-                    return self.wrap(w.OptStr.s(val))
+                    return self.opt(val)
                 return self.wrap(val)
         cls = self.class_of_ctor(chosen)
         v, owner = cls.lookup(name)
@@ -1243,6 +1446,8 @@ class Interp:
             return self.call_function(f, list(args), kwargs, node)
         if isinstance(f, ClassVal):
             return self.construct(f, args, kwargs, node)
+        if isinstance(f, Obj):
+            return self.call(self.getattr(f, '__call__', node), args, kwargs, node)
         if isinstance(f, ExcClass):
             msg = args[0] if args and isinstance(args[0], str) else ''
             return ExcInstance(f.name, msg)
@@ -1364,8 +1569,10 @@ class Interp:
     def call_function(self, f, args, kwargs, node):
         c = self.contract_of(f)
         if c is not None and f is not self.target and not getattr(c, 'inline_at_calls', False):
+            self.callee = f
             return self.use_contract(c, args, kwargs, node)
         if c is not None and f is self.target and self.depth > 0:
+            self.callee = f
             return self.use_contract(c, args, kwargs, node, recursive=True)
         return self.inline(f, args, kwargs, node)
 
@@ -1519,14 +1726,33 @@ class Interp:
             return range(*args)
         raise CheckerError('symbolic range needs a loop invariant')
 
+    def _bools(self, items):
+        out = []
+        for x in items:
+            if isinstance(x, bool):
+                out.append(z3.BoolVal(x))
+            elif isinstance(x, Z) and self.sort_name(x) == 'Bool':
+                out.append(x.e)
+            else:
+                return None
+        return out
+
     def bi_all(self, args, kwargs, node):
-        for x in self.iterate(args[0], node):
+        items = self.iterate(args[0], node)
+        bs = self._bools(items)
+        if bs is not None:
+            return self.wrap(z3.And(*bs)) if bs else True     # the elements are already evaluated: no side effect is skipped
+        for x in items:
             if not self.truth(x, node):
                 return False
         return True
 
     def bi_any(self, args, kwargs, node):
-        for x in self.iterate(args[0], node):
+        items = self.iterate(args[0], node)
+        bs = self._bools(items)
+        if bs is not None:
+            return self.wrap(z3.Or(*bs)) if bs else False
+        for x in items:
             if self.truth(x, node):
                 return True
         return False
@@ -1724,6 +1950,10 @@ def _zstr(e):
     return _re.sub(r'\\u\{([0-9a-fA-F]+)\}', lambda m: chr(int(m.group(1), 16)), s)
 
 
+def _pure_call(n):
+    return isinstance(n.func, ast.Attribute) and n.func.attr in ('startswith', 'endswith') and not n.keywords
+
+
 def _load(t):
     import copy
     t2 = copy.deepcopy(t)
@@ -1740,9 +1970,40 @@ _PYCMP = {ast.Lt: _op.lt, ast.LtE: _op.le, ast.Gt: _op.gt, ast.GtE: _op.ge}
 
 
 # ---------------------------------------------------------------------- path exploration
-def explore(I: Interp, run, max_paths=MAX_PATHS):
-    """run(ctx) executes the target once under the decisions of ctx; yields one outcome per feasible path"""
-    work = [[]]
+class _PrefixStop(Exception):
+    pass
+
+
+def enumerate_prefixes(I: Interp, run, depth):
+    """the decision prefixes of length <= depth that partition the paths (for distributing one function over processes)"""
+    work, out = [[]], []
+    while work:
+        dec = work.pop()
+        ctx = PathCtx(dec)
+        ctx.abstract = I.w.abstract
+        ctx.stop_at = depth
+        I.ctx = ctx
+        I.depth = 0
+        try:
+            run(ctx)
+            out.append(list(ctx.decisions))
+        except _PrefixStop:
+            out.append(list(ctx.decisions))
+        except Infeasible:
+            pass
+        work.extend(ctx.pending)
+    uniq = []
+    for p in out:
+        if p not in uniq:
+            uniq.append(p)
+    return uniq
+
+
+def explore(I: Interp, run, max_paths=MAX_PATHS, prefix=None):
+    """run(ctx) executes the target once under the decisions of ctx; yields one outcome per feasible path.
+    With `prefix`, only the paths whose decisions start with it."""
+    work = [list(prefix or [])]
+    plen = len(prefix or [])
     outcomes = []
     n = 0
     while work:
@@ -1751,6 +2012,7 @@ def explore(I: Interp, run, max_paths=MAX_PATHS):
         if n > max_paths:
             raise CheckerError('path limit exceeded')
         ctx = PathCtx(dec)
+        ctx.abstract = I.w.abstract
         I.ctx = ctx
         I.depth = 0
         try:
@@ -1759,5 +2021,8 @@ def explore(I: Interp, run, max_paths=MAX_PATHS):
             work.extend(ctx.pending)
             continue
         work.extend(ctx.pending)
-        outcomes.append(dict(kind=kind, value=val, pc=list(ctx.pc), obligations=ctx.obligations, decisions=list(ctx.decisions)))
+        outcomes.append(dict(kind=kind, value=val, pc=list(ctx.pc), obligations=ctx.obligations, decisions=list(ctx.decisions), ctx=ctx))
+    if plen:
+        # alternatives that flip a decision inside the prefix belong to another partition
+        outcomes = [o for o in outcomes if o['decisions'][:plen] == list(prefix)]
     return outcomes
